@@ -21,7 +21,8 @@ ScOf(j) == [single   |-> [n \in Node |-> ToSet(j.single[n])],
             lazy     |-> ToSet(j.lazy),
             wrap     |-> [n \in Node |-> j.wrap[n]],
             fail     |-> [n \in Node |-> j.fail[n]],
-            procs    |-> [p \in 1..Len(j.procs) |-> j.procs[p]]]
+            procs    |-> [p \in 1..Len(j.procs) |-> j.procs[p]],
+            mode     |-> [n \in Node |-> j.mode[n]]]
 
 TraceScenarios == {ScOf(Trace[1].sc)}
 
@@ -52,7 +53,8 @@ TResolve == IsEv("resolve") /\ TopIs(E.n) /\ E.ok = (sc.fail[E.n] # "resolve") /
 TBefore  == IsEv("before") /\ TopIs(E.n) /\ E.ok = (sc.fail[E.n] # "before") /\ BInit
 TAps     == IsEv("aps") /\ TopIs(E.n) /\ E.ok = (sc.fail[E.n] # "aps") /\ APS
 TInit    == IsEv("init") /\ TopIs(E.n) /\ E.ok = (sc.fail[E.n] # "init") /\ InitCb
-TAfter   == IsEv("after") /\ TopIs(E.n) /\ E.ok = (sc.fail[E.n] # "after") /\ AInit
+TAfter   == IsEv("after") /\ TopIs(E.n) /\ E.ok = (sc.fail[E.n] # "after") /\ (AInit \/ SAfter)
+TBinst   == IsEv("binst") /\ TopIs(E.n) /\ Shortcut
 TCheck   == IsEv("getNoEarly") /\ TopIs(E.n) /\ E.res = L2[E.n] /\ ~E.err /\ Check
 TCreateEnd == /\ IsEv("createEnd") /\ TopIs(E.n)
               /\ E.ok = (Top.pc = "end") /\ (E.ok => E.res = Top.exp)
@@ -70,7 +72,7 @@ TReset == /\ IsEv("scenario")
 TraceInit == l = 2 /\ Init
 TraceNext ==
   /\ \/ TGet \/ TCreateBegin \/ TAddFactory \/ TResolve \/ TBefore \/ TAps \/ TInit \/ TAfter
-     \/ TCheck \/ TCreateEnd \/ TRunReturn \/ TLookupReturn \/ TProcInit \/ TReset
+     \/ TCheck \/ TCreateEnd \/ TRunReturn \/ TLookupReturn \/ TProcInit \/ TBinst \/ TReset
   /\ (E.ev # "scenario" => StateMatchesP(E.st))
 TraceSpec == TraceInit /\ [][TraceNext]_<<vars, l>>
 
